@@ -297,9 +297,10 @@ structure HsMsg where
 
 /-- acceptance of `message_seq` against `recv_message_seq` (with the post-HelloVerifyRequest re-sync on the client):
 `(accepted, new recv_message_seq, synced)` -/
-def acceptSeq (isClient : Bool) (recv : Nat) (postHvr : Bool) (seq : Nat) : Bool × Nat × Bool :=
-  if seq < recv then (if postHvr ∧ isClient then (true, seq, true) else (false, recv, false))
-  else if seq > recv then (if postHvr ∧ isClient then (true, seq, true) else (false, recv, false))
+def acceptSeq (isClient : Bool) (recv : Nat) (postHvr : Bool) (typ seq : Nat) : Bool × Nat × Bool :=
+  -- only the ServerHello (type 2) opens the server's post-cookie flight and may move the counter
+  if seq < recv then (if postHvr ∧ isClient ∧ typ = 2 then (true, seq, true) else (false, recv, false))
+  else if seq > recv then (if postHvr ∧ isClient ∧ typ = 2 then (true, seq, true) else (false, recv, false))
   else (true, recv, false)
 
 /-- fragment handling + counters of an accepted message; the handler itself is a no-op here -/
@@ -309,10 +310,11 @@ def reassemble (c : HsCtx) (m : HsMsg) : Cur HsCtx := do
     let reset := c.incSeq ≠ m.seq ∨ m.fragOff = 0
     let inc0 := if reset then 0 else c.incLen
     let c : HsCtx := { c with incLen := inc0, incSeq := if reset then m.seq else c.incSeq }
-    -- only the fragment that continues the buffer is appended
-    if m.fragOff ≠ c.incLen then pure c else
-    alloc m.fragLen                                       -- `incomplete_handshake.extend_from_slice(&msg.body)`
-    let inc := c.incLen + m.fragLen
+    -- fragment ranges may overlap: a fragment starting inside or at the end of the buffer contributes the bytes beyond it;
+    -- early fragments and pure duplicates are ignored
+    if m.fragOff > c.incLen ∨ m.fragOff + m.fragLen ≤ c.incLen then pure c else
+    alloc (m.fragOff + m.fragLen - c.incLen)              -- `incomplete_handshake.extend_from_slice(&msg.body[have - offset..])`
+    let inc := m.fragOff + m.fragLen
     if inc < m.total then pure { c with incLen := inc } else
     alloc (12 + inc)                                      -- re-encoded `full_raw`
     let r ← attemptD (seqAdvance c.recvSeq) 0
@@ -328,7 +330,7 @@ def reassemble (c : HsCtx) (m : HsMsg) : Cur HsCtx := do
 
 /-- one decoded message through acceptance, the clear-text-after-keys skip and reassembly -/
 def onMessage (isClient authenticated : Bool) (c : HsCtx) (m : HsMsg) : Cur HsCtx :=
-  let a := acceptSeq isClient c.recvSeq c.postHvr m.seq
+  let a := acceptSeq isClient c.recvSeq c.postHvr m.typ m.seq
   if ¬ a.1 then pure c                                    -- duplicate / out of order: skipped
   else
     let c : HsCtx := { c with recvSeq := a.2.1, postHvr := if a.2.2 then false else c.postHvr }
